@@ -337,6 +337,16 @@ pub fn gen_adversarial(r: &mut Rng) -> MScn {
         };
         words.push(w);
     }
+    // sometimes the block starts in supervisor mode and drops to user mode itself, by storing a user
+    // PSR through the PSR's I/O address, before it attacks
+    if r.chance(1, 6) {
+        s.psr = Some(0x0002 | ((r.below(8) as u16) << 8));
+        s.regs.retain(|(k, _)| *k != 6 && *k != 7);
+        s.regs.push((6, 0x8002 | ((r.below(8) as u16) << 8)));
+        s.regs.push((7, 0xFFFC));
+        // STR R6, R7, #0
+        words.insert(0, 0x7DC0);
+    }
     s.pokes.insert(0, (base, words));
     // recording devices at aimed ports: any call they log during a refused access is a violation
     s.devs.push(DevSpec::Script(ScriptSpec { ports: vec![0xFE40, 0xFE41, 0xFFFF], vect: 0x90, prio: 0, raises: vec![], externals: vec![], read_refuse: vec![], write_refuse: vec![], read_base: r.u16(), mcr_clear: vec![], wrap: 0 }));
